@@ -56,6 +56,7 @@ func propC12(c *Ctx, r *Report) {
 	// tolerance band tables
 	r.rule("C12/band-table", 8, "tolerance band constant, inclusive edges, in-band and out-of-band outcome per era")
 	bandTables(c, r, e)
+	ruleNoCarriedDecision(c, r, "C12/band-table", c.fn("node.Pegnetd.GetAssetRates"), c.fn("node.Pegnetd.GetAssetRatesV0"))
 
 	// PEG phase table of InsertRates
 	r.rule("C12/peg-phase", 4, "PEG rate by pricing phase")
@@ -412,4 +413,72 @@ func rateInsertTokens(c *Ctx, t *Trace) []ssa.Value {
 		}
 	}
 	return out
+}
+
+// ruleNoCarriedDecision: the per-asset loops of the rate-combination functions carry nothing from one asset to the
+// next except the loop index and the result list: every asset is judged on its own band.
+func ruleNoCarriedDecision(c *Ctx, r *Report, rule string, fns ...*ssa.Function) {
+	for _, f := range fns {
+		var bad []string
+		n := 0
+		for _, l := range naturalLoops(f) {
+			for _, ins := range l.header.Instrs {
+				ph, ok := ins.(*ssa.Phi)
+				if !ok {
+					continue
+				}
+				n++
+				okk := false
+				switch ph.Type().Underlying().(type) {
+				case *types.Slice:
+					// accumulator: every in-loop edge is the phi itself or an append to it
+					okk = true
+					for i, e := range ph.Edges {
+						if !l.blocks[l.header.Preds[i]] {
+							continue
+						}
+						if e == ssa.Value(ph) {
+							continue
+						}
+						if !sliceHas(e, func(v ssa.Value) bool {
+							call, ok := v.(*ssa.Call)
+							if !ok {
+								return false
+							}
+							b, ok := call.Call.Value.(*ssa.Builtin)
+							return ok && b.Name() == "append"
+						}) {
+							okk = false
+						}
+					}
+				case *types.Basic:
+					// induction variable: in-loop edges are phi + constant
+					if ph.Type().Underlying().(*types.Basic).Info()&types.IsInteger != 0 {
+						okk = true
+						for i, e := range ph.Edges {
+							if !l.blocks[l.header.Preds[i]] {
+								continue
+							}
+							bo, ok := e.(*ssa.BinOp)
+							if !ok || bo.Op != token.ADD || bo.X != ssa.Value(ph) {
+								okk = false
+								continue
+							}
+							if _, ok := bo.Y.(*ssa.Const); !ok {
+								okk = false
+							}
+						}
+					}
+				}
+				if !okk {
+					d := ph.Comment
+					if d == "" {
+						d = shortType(ph.Type()) + " variable"
+					}
+					bad = append(bad, fmt.Sprintf("%s at %s keeps its value from one asset to the next", d, c.pos(ph.Pos())))
+				}
+			}
+		}
+		r.check(len(bad) == 0 && n > 0, rule, fname(f)+": each asset is judged on its own", c.pos(f.Pos()), fmt.Sprintf("%d loop variables: index and result list only", n), strings.Join(bad, "; ")+": a decision made for one asset (e.g. a narrowed tolerance) applies to the assets after it")
+	}
 }
